@@ -20,6 +20,21 @@ CLAIMED = {
  'C05': ('property-based testing + bounded-exhaustive enumeration: all strings over a separator/quote/escape alphabet x all cut sets (chunking invariance, reference splitter), random byte strings x chunkings, delimiter modes; hook + binary end-to-end sample',
          'Exploration: exhaustive over strings up to 6 (thorough 7, and 8 with single cuts) symbols x every way of cutting the stream; random inputs to ~20 KiB straddling the 4096-byte refill edge, invalid UTF-8 included.',
          'Readers reached through the verif-hooks function read_args (chunk-controlled Read); 1/30 random cases also through the real binary and a pipe. Reference splitter covers only what the statement fixes.', 'DESIGN.md §3 C05'),
+ 'C07': ('property-based testing: generated trees with hostile UTF-8 names; byte-exact -print0/-print output vs reference walk; real find|xargs -0 pipeline delivering to a recorder command',
+         'Exploration: tens of thousands of trees whose names contain blanks, newlines, quotes, backslashes, leading dashes, glob characters and multi-byte text (up to 255-byte names, outputs past 8 KiB); stdout equals the concatenation of reference paths + terminator, and the built find | xargs -0 rec pipeline delivers each path exactly once unmodified.',
+         'Trusts the reference walker and the rec recorder; names are valid UTF-8 (the statement\'s domain); the pipe is modelled by capturing find\'s stdout and feeding it to xargs\' stdin.', 'DESIGN.md §3 C07'),
+ 'C10': ('property-based testing: twin listing/deletion runs on generated trees with an outside area; file-system snapshot difference vs a removal model; truth of -delete observed through labelled -printf',
+         'Exploration: generated trees (links inside/outside, dangling, random modes) x test expressions x follow modes; snapshot(after) == snapshot(before) - removed over the whole case directory, removal order and truth value observed, failing removals (non-empty directories) diagnosed with non-zero exit while the walk continues.',
+         'Trusts the snapshot (lstat-based) and the listing run of the same binary for the matched set (the statement defines the set that way); tests restricted to those whose truth cannot depend on earlier deletions.', 'DESIGN.md §3 C10'),
+ 'C13': ('property-based testing: one directory of every creatable file type x random modes/owners x follow mode x depth 0/1 vs predicates over lstat/stat; exhaustive 4096-mode directory for -perm with octal/symbolic metamorphic relation',
+         'Exploration: every creatable entry type with random 12-bit modes and owners under -P/-H/-L at depth 0 and 1, ~14 tests per tree; plus every -perm operand form evaluated against all 4096 permission values at once, octal and symbolic spellings selecting identical sets.',
+         'Runs as root (all twelve bits settable, chown to unmapped ids). Reference predicates written from the statement over std::fs metadata.', 'DESIGN.md §3 C13'),
+ 'C14': ('property-based testing: boundary-value file population (sparse sizes k*u-1,k*u,k*u+1 up to 5 GiB, link counts, ids, ages under an injected clock) x random operands; trichotomy + monotonicity + model value',
+         'Exploration: for each generated (test, N, unit) the three forms N/+N/-N partition a population of ~150 boundary-sized files exactly as ceil(size/unit) (or the stat field / whole periods) predicts, and +N/-N selections are monotone in N.',
+         'Sparse files report st_size faithfully; ctime-based tests are covered in C15; operands above 2^64-1 belong to C11.', 'DESIGN.md §3 C14'),
+ 'C15': ('property-based testing: ns-precision timestamps set with utimensat, injected clock at k*period +/- epsilon, all nine -newerXY pairs with independent reference timestamps; model over read-back timestamps',
+         'Exploration: ages at k*period -/+ 1 ns, 1 s for k in 0..400 and both periods on all six age tests with all three operand forms; entry.X placed at ref.Y -/+ 1 ns for all XY in {a,c,m}^2 plus -newer/-anewer/-cnewer.',
+         'Clock injected through Dependencies::now(); ctime read back (cannot be set); negative ages, -daystart and -newerXt not asserted.', 'DESIGN.md §3 C15'),
 }
 hooks_commits = subprocess.run(['git','-C','/repo','log','--format=%H %s'],capture_output=True,text=True).stdout.splitlines()
 hook_shas = [l.split()[0] for l in hooks_commits if 'verif hooks' in l]
